@@ -246,9 +246,17 @@ func (e *Engine) VerifyFunc(c *Contract) {
 	{
 		number := func(cs []*Clause) []*Clause {
 			out := make([]*Clause, len(cs))
+			plain := 0
+			tagged := map[string]int{}
 			for i, cl := range cs {
 				n := *cl
-				n.Ord = i + 1
+				if len(cl.Props) > 0 {
+					tagged[cl.Props[0]]++
+					n.OrdS = fmt.Sprintf("%s-%d", cl.Props[0], tagged[cl.Props[0]])
+				} else {
+					plain++
+					n.Ord = plain
+				}
 				out[i] = &n
 			}
 			return out
@@ -471,7 +479,7 @@ func (fc *FnCtx) finish(st *State, rets []Value, where string, pos token.Pos) {
 		sc := fc.specCtx(st, scope)
 		sc.pol = 1
 		t := sc.evalBool(en.Expr)
-		fc.obligeNamed(st, fmt.Sprintf("%s#ensures.%d@%s", fc.name, en.Ord, where), "ensures", t, pos, en.Text)
+		fc.obligeNamed(st, fmt.Sprintf("%s#ensures.%s@%s", fc.name, en.ordName(0), where), "ensures", t, pos, en.Text)
 	}
 	fc.frameCheck(st, where, pos)
 }
